@@ -16,6 +16,8 @@ class STLExplainer(LTLExplainer, StlAstVisitor):
 
     def explain(self, spec):
         self.spec = spec
+        # explanations of an earlier evaluation must not survive into this one
+        self.explanations = dict()
         for spec in self.spec.specs:
             top_signal = self.spec.results[spec]
             if top_signal[0] < 0:
